@@ -725,7 +725,7 @@ func checkBinOpGuards(c *Ctx, p *packages.Package, binop *ast.FuncDecl, bv *fnVi
 					inQuo := false
 					for _, e := range cases {
 						if is, ok := e.(*ast.IfStmt); ok && is != ovIf {
-							if v, ok := evalBool(info, is.Cond, map[string]int64{"op": int64(token.QUO)}); ok && v && a.Pos() < is.Body.End() {
+							if v, ok := evalBool(info, is.Cond, map[string]int64{"op": int64(token.QUO)}); ok && v && within(is.Body, a) {
 								inQuo = true
 							}
 						}
@@ -1214,7 +1214,7 @@ func typeOverwrittenBeforeRead(v *fnView, base string, typ ast.Expr, call *ast.C
 		if !ok {
 			continue
 		}
-		hit, found := g.reach(wp.after(), nil, func(n ast.Node) bool { return n.Pos() <= read.Pos() && read.End() <= n.End() }, false, nil)
+		hit, found := g.reach(wp.after(), nil, func(n ast.Node) bool { return within(n, read) }, false, nil)
 		if found && hit != nil {
 			return base + ".Type is overwritten at " + v.p.Fset.Position(w.Pos()).String() + " before it is read as the source type: the conversion sees the destination type"
 		}
